@@ -244,7 +244,7 @@ def attach_family(ctx, r, case):
     from labrea import Option, dataset
     from labrea.cache import MemoryCache, NoCache
 
-    calls, runs = [], [0, 0]
+    calls, runs, seen_values = [], [0, 0], []
     script = []
 
     def mk_body(i):
@@ -258,6 +258,8 @@ def attach_family(ctx, r, case):
     def mk(name):
         def eff(value):
             calls.append(name)
+            seen_values.append(value)
+            return ("returned-by", name)
 
         eff.__name__ = name
         return eff
@@ -307,6 +309,7 @@ def attach_family(ctx, r, case):
         else:
             o = copy.deepcopy(r.choice(pool))
             del calls[:]
+            del seen_values[:]
             before = list(runs)
             out = observe(objs[x].evaluate, o)
             ctx.evaluations += 1
@@ -318,6 +321,10 @@ def attach_family(ctx, r, case):
             ctx.count("attach_family_evaluations")
             if k:
                 ctx.count("attach_family_body_runs")
+            if out[0] == "ok" and any(canon(v) != out[1] for v in seen_values):
+                ctx.violation("effects-vs-stored-values", f"object {x}: an effect was called with {short([canon(v) for v in seen_values])}, the body's value is {short(out[1])} "
+                              f"(every effect receives the value of the body, whatever earlier effects returned)", W)
+                return
             if any(len(set(attached[y])) < len(attached[y]) for y in range(len(objs))):
                 ctx.count("attach_family_same_effect_attached_twice")
             for n in names:
